@@ -164,17 +164,8 @@ theorem C12_actor_frame {s t} (x : SAct) (h : sysStep s x = some t) (a : Nat) :
 
 /-! ## non-vacuity: the hypotheses are satisfiable by non-trivial reachable states -/
 
-def demoScript (i : Nat) : List Job := if i < 2 then [⟨i, 0⟩, ⟨i, 1⟩] else []
-
-theorem demo_owned : OwnedScript demoScript := by
-  intro i j hj
-  unfold demoScript at hj
-  split at hj
-  · simp at hj; rcases hj with rfl | rfl <;> rfl
-  · cases hj
-
-theorem demo_nodup : ∀ i, (demoScript i).Nodup := by
-  intro i; unfold demoScript; split <;> simp [Job.mk.injEq]
+/- `demoScript` (two senders with two messages each) and the facts `demo_owned : OwnedScript demoScript`,
+   `demo_nodup : ∀ i, (demoScript i).Nodup` are in `Proofs/C12MB.lean`. -/
 
 /-- two senders, capacity 1, a Close racing a parked Post: one message done, one running, one buffered … and
     the parked one dropped by the recovered send-on-closed panic -/
